@@ -43,6 +43,12 @@ func fileObjectVariants(content bool) []treeVariant {
 		{"nameOnly", map[string]any{"name": "n"}},
 		{"labelsOnly", map[string]any{"labels": map[string]any{"a": "b"}}},
 		{"fileNull", map[string]any{"file": nil}},
+		// a custom driver does not lift the exclusivity of the sources
+		{"driverFileEnv", map[string]any{"driver": "d", "file": "./f", "environment": "E"}},
+		{"driverFileContent", map[string]any{"driver": "d", "file": "./f", "content": "c"}},
+		{"driverExternal", map[string]any{"driver": "d", "external": true}},
+		{"driverExternalFileEnv", map[string]any{"driver": "d", "external": true, "file": "./f", "environment": "E"}},
+		{"externalFileEnv", map[string]any{"external": true, "file": "./f", "environment": "E"}},
 	}
 	l = append(l, treeVariant{"content", map[string]any{"content": "c"}}, treeVariant{"fileContent", map[string]any{"file": "./f", "content": "c"}},
 		treeVariant{"envContent", map[string]any{"environment": "E", "content": "c"}}, treeVariant{"all3", map[string]any{"file": "./f", "environment": "E", "content": "c"}})
